@@ -276,8 +276,17 @@ def _leaf(rng: random.Random, kind: str, hostile: bool, noise: float) -> Any:
         return rng.choice([True, False, 1.5, {"o": 1}, ["l"]])
     if rng.random() < 0.2:
         return rng.randrange(1000)
-    return rng.choice(["a", "b", "svc one", "GET", "x_y", "ü", "/put", "0"]) + \
+    base = rng.choice(["a", "b", "svc one", "GET", "x_y", "ü", "/put", "0"]) + \
         (str(rng.randrange(5)) if rng.random() < 0.5 else "")
+    r2 = rng.random()
+    if r2 < 0.06:
+        # surrounding blanks and characters some line splitters treat as line ends: a value is
+        # whatever stands at the mapped path, unchanged
+        base = rng.choice([" ", "\t", "\u00a0"]) + base if rng.random() < 0.5 else \
+            base + rng.choice([" ", "  ", "\u00a0"])
+    elif r2 < 0.10:
+        base = base[:1] + rng.choice(["\u2028", "\u2029", "\u0085", " \u2028 "]) + base[1:]
+    return base
 
 
 def _set(obj: dict, dotted: str, val: Any) -> None:
